@@ -10,7 +10,8 @@ CwdForms == {"root", "ancestor", "unrelated", "subdir"}
 (* which (argument, cwd) pairs can be written down at all: a relative path needs the target below cwd *)
 Nameable(arg, cwd) == CASE arg \in {"absolute_file", "parent_dir_absolute", "root_absolute"} -> TRUE
                         [] arg = "root_dot" -> cwd = "root"
-                        [] arg \in {"relative_file", "parent_dir_relative"} -> cwd \in {"root", "ancestor", "subdir"}
+                        \* a relative path may climb out of the working directory with ".." segments
+                        [] arg \in {"relative_file", "parent_dir_relative"} -> TRUE
 CheckNaming == { <<a, c, q>> \in ArgForms \X CwdForms \X BOOLEAN : Nameable(a, c) }
 VARIABLE nm
 Init == nm \in CheckNaming
